@@ -510,6 +510,25 @@ class FunctionVC:
         nd = len(a.defaults)
         if a.kwarg is not None and a.kwarg.arg not in I.env:
             I.env[a.kwarg.arg] = VDict()
+        # CALL PROTOCOL contracts: parameters the callers pass BY KEYWORD.  The function may take them
+        # as named (keyword-only or ordinary) parameters or collect them in its **kwargs -- the
+        # contract is about what the callers pass, not about how the signature is spelled.  A keyword
+        # the function cannot accept at all is a TypeError at every call: reported as an obligation.
+        formal = set(params) | {p.arg for p in a.kwonlyargs}
+        for kwn in c.ghost.get('call_keywords', []):
+            if kwn in formal:
+                continue
+            v = I.env.pop(kwn)
+            if a.kwarg is not None:
+                I.env[a.kwarg.arg].items[kwn] = v
+            else:
+                I.oblige('%s.accepts[%s]' % (self.qual, kwn), z3.BoolVal(False), 'pre',
+                         {'text': 'the function accepts the keyword argument %r its callers pass' % kwn})
+        for p, d in zip(a.kwonlyargs, a.kw_defaults):
+            if p.arg not in I.env:
+                if d is None:
+                    raise Unsupported('keyword-only parameter %s has no type in the contract' % p.arg)
+                I.env[p.arg] = I.eval(d)
         for i, p in enumerate(params):
             if p not in I.env:
                 di = i - (len(params) - nd)
